@@ -58,6 +58,20 @@ type KRec struct {
 	UpdatedAt time.Time
 }
 
+// DRec: two columns with database defaults - a literal one (gorm writes it itself for a zero field) and
+// a computed one (left to the database for a zero field, read back through RETURNING, and documented to
+// be left alone by OnConflict{UpdateAll}).
+type DRec struct {
+	ID        uint   `gorm:"primaryKey"`
+	Code      string `gorm:"uniqueIndex"`
+	Name      string `gorm:"default:dflt"`
+	Age       int    `gorm:"index"`
+	Note      string `gorm:"default:(lower('N'))"`
+	CreatedAt time.Time
+	UpdatedAt time.Time
+}
+
+func (DRec) TableName() string { return "recs" }
 func (Rec) TableName() string  { return "recs" }
 func (SRec) TableName() string { return "recs" }
 func (KRec) TableName() string { return "recs" }
@@ -67,9 +81,15 @@ const (
 	kPlain = iota
 	kSoft
 	kAppKey
+	kDef
 )
 
-var kindNames = []string{"plain", "soft", "appkey"}
+const (
+	defName = "dflt" // DRec.Name's literal default
+	defNote = "n"    // what DRec.Note's computed default evaluates to
+)
+
+var kindNames = []string{"plain", "soft", "appkey", "defaults"}
 
 // newRec returns a pointer to a zero record of the kind's model type.
 func newRec(kind int) reflect.Value {
@@ -78,6 +98,8 @@ func newRec(kind int) reflect.Value {
 		return reflect.ValueOf(&SRec{})
 	case kAppKey:
 		return reflect.ValueOf(&KRec{})
+	case kDef:
+		return reflect.ValueOf(&DRec{})
 	}
 	return reflect.ValueOf(&Rec{})
 }
@@ -299,6 +321,7 @@ type Outcome struct {
 	ErrText      string
 	Out          Row // returned / back-filled record
 	OutValid     bool
+	Stored       *Row // the row the table ends up with, when it differs from Out (database defaults)
 	RowsAffected int64
 	RAValid      bool
 }
@@ -534,6 +557,23 @@ func run(d *testdb.DB, kind int, o Op, v variant) Outcome {
 	return out
 }
 
+// insertDefaults: what an INSERT of r stores in the defaults model when the name / note are given or not,
+// and what the caller's record shows afterwards (the computed default can only be read back with RETURNING).
+func insertDefaults(r Row, nameGiven, noteGiven bool) (stored, out Row) {
+	stored = r
+	if !nameGiven {
+		stored.Name = defName
+	}
+	if !noteGiven {
+		stored.Note = defNote
+	}
+	out = stored
+	if !noteGiven && curDims.NoReturning {
+		out.Note = ""
+	}
+	return
+}
+
 // ---- the reference semantics -----------------------------------------------------------------
 
 // expect applies o to the model and returns the expected outcome. wantErr
@@ -546,6 +586,18 @@ func expect(m *Model, o Op) (exp Outcome) {
 			return Outcome{Err: true}
 		}
 		r := Row{ID: v.ID, Code: v.Code, Name: v.Name, Age: v.Age, Note: v.Note}
+		if m.Kind == kDef {
+			if _, exists := m.Rows[v.ID]; !exists || v.ID == 0 {
+				// the record is inserted: zero fields take their defaults (an UPDATE of an existing key
+				// writes the value as it is)
+				stored, out := insertDefaults(r, v.Name != "", v.Note != "")
+				if v.ID == 0 {
+					return Outcome{AutoID: true, Out: out, Stored: &stored, OutValid: true, RowsAffected: 1, RAValid: true}
+				}
+				m.put(stored)
+				return Outcome{Out: out, OutValid: true, RowsAffected: 1, RAValid: true}
+			}
+		}
 		if v.ID == 0 {
 			return Outcome{AutoID: true, Out: r, OutValid: true, RowsAffected: 1, RAValid: true}
 		}
@@ -592,6 +644,22 @@ func expect(m *Model, o Op) (exp Outcome) {
 			}
 		}
 		byCode := m.byCode(v.Code)
+		def := m.Kind == kDef
+		if def {
+			// columns with a default are never NULL: left out (map) or zero (struct), the default is stored -
+			// v becomes the row the INSERT would store, which is also what `excluded` shows on conflict
+			vNulls &^= nullName | nullNote
+			nameGiven, noteGiven := v.Name != "", v.Note != ""
+			if o.MapCols != nil {
+				nameGiven, noteGiven = supplied("name"), supplied("note") // a map value is written as it is
+			}
+			if !nameGiven {
+				v.Name = defName
+			}
+			if !noteGiven {
+				v.Note = defNote
+			}
+		}
 		if byID == nil && byCode == nil {
 			r := Row{ID: v.ID, Code: v.Code, Name: v.Name, Age: v.Age, Note: v.Note, Nulls: vNulls}
 			if v.ID == 0 {
@@ -654,7 +722,7 @@ func expect(m *Model, o Op) (exp Outcome) {
 			if supplied("age") {
 				t.Age, t.Nulls = v.Age, t.Nulls&^nullAge
 			}
-			if supplied("note") {
+			if supplied("note") && !def { // documented: UpdateAll leaves columns with a computed default alone
 				t.Note, t.Nulls = v.Note, t.Nulls&^nullNote
 			}
 			if o.MapCols == nil {
@@ -763,6 +831,10 @@ func expect(m *Model, o Op) (exp Outcome) {
 		m.put(r)
 		return Outcome{Out: r, OutValid: true, RowsAffected: 1, RAValid: true}
 	}
+	if m.Kind == kDef {
+		stored, out := insertDefaults(r, r.Name != "", r.Note != "")
+		return Outcome{AutoID: true, Out: out, Stored: &stored, OutValid: true, RowsAffected: 1, RAValid: true}
+	}
 	return Outcome{AutoID: true, Out: r, OutValid: true, RowsAffected: 1, RAValid: true}
 }
 
@@ -782,7 +854,7 @@ func (x dims) String() string {
 
 var curDims dims // the case being run (one case at a time per process)
 
-var ddlCache [3][]string // CREATE statements of the recs table per model kind, captured once
+var ddlCache [4][]string // CREATE statements of the recs table per model kind, captured once
 
 func nowFunc() time.Time { return testdb.FixedNow }
 
@@ -1012,6 +1084,11 @@ func genOp(t *rapid.T, m *Model) Op {
 		// from then on (documented): records of this model are only written with a key
 		kinds = []string{"save", "save", "saveslice", "upsert", "upsert", "upsert", "firstorinit"}
 	}
+	if m.Kind == kDef {
+		// Save of a slice is an upsert with UpdateAll, which leaves computed-default columns alone: what
+		// "stores the full value" means for them is not documented
+		kinds = []string{"save", "save", "upsert", "upsert", "upsert", "firstorinit", "firstorcreate", "firstorcreate"}
+	}
 	kind := rapid.SampledFrom(kinds).Draw(t, "kind")
 	o := Op{Kind: kind}
 	switch kind {
@@ -1124,10 +1201,10 @@ func genCondAttr(t *rapid.T, label, col, form string) Attr {
 // ---- the property ---------------------------------------------------------------------------
 
 func TestC16(t *testing.T) {
-	evid.Rule("C16: stateful histories (1-8 operations) of Save (one record, or a slice of 2-3) / Create+OnConflict{DoNothing, DoUpdates(column subset, from the proposed row or explicit values), UpdateAll; target id or the unique column} with the proposed row as struct or as a map carrying a column subset / FirstOrInit / FirstOrCreate (struct, map, inline conditions; Attrs/Assign as struct, map, key-value; optionally Unscoped on the soft-delete model) over keys 0..5 and four unique codes, plain and soft-delete model, each compared with a reference map and re-run with Session/WithContext at every chain position on identical database copies; non-trivial = a key or unique-column collision happened and a Session/WithContext variant not in last position was compared; distinct = model kind + initial rows + operation list")
+	evid.Rule("C16: stateful histories (1-8 operations) of Save (one record, or a slice of 2-3) / Create+OnConflict{DoNothing, DoUpdates(column subset, from the proposed row or explicit values), UpdateAll; target id or the unique column} with the proposed row as struct or as a map carrying a column subset / FirstOrInit / FirstOrCreate (struct, map, inline conditions; Attrs/Assign as struct, map, key-value; optionally Unscoped on the soft-delete model) over keys 0..5 and four unique codes, on four models (auto key, soft delete, application-assigned key, columns with literal and computed database defaults) and under drawn configuration (RETURNING on/off, SkipDefaultTransaction, PrepareStmt, CreateBatchSize), each compared with a reference map and re-run with Session/WithContext at every chain position on identical database copies; non-trivial = a key or unique-column collision happened and a Session/WithContext variant not in last position was compared; distinct = model kind + initial rows + operation list")
 	evid.Assume("SQLite's own resolution of INSERT ... ON CONFLICT is trusted; proposed rows conflicting with two different rows are not generated")
 	rapid.Check(t, func(rt *rapid.T) {
-		kind := rapid.SampledFrom([]int{kPlain, kPlain, kSoft, kSoft, kAppKey}).Draw(rt, "kind")
+		kind := rapid.SampledFrom([]int{kPlain, kPlain, kSoft, kSoft, kAppKey, kDef}).Draw(rt, "kind")
 		soft := kind == kSoft
 		m := &Model{Kind: kind, Soft: soft, Rows: map[uint]Row{}}
 		nInit := rapid.IntRange(0, 4).Draw(rt, "ninit")
@@ -1245,7 +1322,12 @@ func TestC16(t *testing.T) {
 					fail("new row got key %d which is not above the highest key ever used (%d)", fresh[0].ID, pre.MaxEver)
 				}
 				exp.Out.ID = fresh[0].ID
-				m.put(exp.Out)
+				if exp.Stored != nil {
+					exp.Stored.ID = fresh[0].ID
+					m.put(*exp.Stored)
+				} else {
+					m.put(exp.Out)
+				}
 			}
 			if exp.Err != got.Err {
 				if got.Err {
@@ -1279,6 +1361,10 @@ func TestC16(t *testing.T) {
 			if (o.Kind == "save" || o.Kind == "saveslice") && !exp.Err {
 				o2 := o
 				o2.V.ID = exp.Out.ID
+				if kind == kDef {
+					// the caller saves the same record again: it carries the defaults read back by the first Save
+					o2.V.Name, o2.V.Note = m.Rows[exp.Out.ID].Name, m.Rows[exp.Out.ID].Note
+				}
 				got2 := run(d, kind, o2, variant{pos: -1})
 				rows2, _ := dump(d, kind)
 				if got2.Err {
